@@ -3,7 +3,7 @@ from .. import checkers
 from ._famprop import make
 
 def FAMS(tier):
-    return (["E1"] if tier == "quick" else ["E"]) + ["S", "D", "R", "O", "K", "C", "V", "M", "U", "G", "CG", "H"]
+    return (["E1"] if tier == "quick" else ["E"]) + ["S", "D", "R", "O", "K", "C", "V", "M", "U", "G", "CG", "H", "DF"]
 
 run, replay = make(
     "C14", "irwf", FAMS,
